@@ -51,7 +51,7 @@ var props = map[string]*propCfg{
 		DesignRef:   "DESIGN.md §4 C03",
 	},
 	"C05": {
-		Rule:        "Cases: perfect squares s^2 (s of 1..80 digits, some to 1 500) and s^2+-1, at receiver precision digits(s)+{-3,-1,0,1,2,20}; roots that are exactly a rounding midpoint ((m+1/2)^2) or lie a few units of a far lower place beside a midpoint or beside a representable value; x a few units of its last place below / above a power of ten (the root crosses a decade) at small precisions; odd and even exponents (incl. negative odd), exponents at both ends of the int32 range; random x with more / as many / fewer digits than the receiver; Sqrt(+0), Sqrt(-0), Sqrt(+Inf) for every mode; 25% with the receiver being the operand. Oracle: integer square root in big.Int + sticky, rounded once (model #1) and the definition check s^2 vs x on candidate neighbours (model #2). After the call the receiver's precision and mode must be what they were and a distinct operand must be bit-identical. Non-trivial = the exact root is not representable at the receiver's precision; distinct = hashes of (x, precision, mode, sharing). Added in later rounds: short perfect squares at 900..2600 digits, operand precisions from the top of the range. Round 7: one- and two-word operands made of edge words (B-1, B/2, B/k, 2^63, 2^62, 2^64-B, 2^32) at any exponent parity.",
+		Rule:        "Cases: perfect squares s^2 (s of 1..80 digits, some to 1 500) and s^2+-1, at receiver precision digits(s)+{-3,-1,0,1,2,20}; roots that are exactly a rounding midpoint ((m+1/2)^2) or lie a few units of a far lower place beside a midpoint or beside a representable value; x a few units of its last place below / above a power of ten (the root crosses a decade) at small precisions; odd and even exponents (incl. negative odd), exponents at both ends of the int32 range; random x with more / as many / fewer digits than the receiver; Sqrt(+0), Sqrt(-0), Sqrt(+Inf) for every mode; 25% with the receiver being the operand. Oracle: integer square root in big.Int + sticky, rounded once (model #1) and the definition check s^2 vs x on candidate neighbours (model #2). After the call the receiver's precision and mode must be what they were and a distinct operand must be bit-identical. Non-trivial = the exact root is not representable at the receiver's precision; distinct = hashes of (x, precision, mode, sharing). Added in later rounds: short perfect squares at 900..2600 digits, operand precisions from the top of the range. Round 7: one- and two-word operands made of edge words (B-1, B/2, B/k, 2^63, 2^62, 2^64-B, 2^32) at any exponent parity. Round 8: six cases in ten are a dense class - precisions 17..40, x = s^2 x 10^(2z) +- small with s of p+1 digits (the root lies a hair beside a number with one digit more than the receiver keeps), x of 50..150 digits.",
 		Assumptions: []string{"operand lengths are capped at 700 digits quick / 3 000 thorough (Newton iteration cost)", "Acc() after Sqrt is not part of the statement and is not judged"},
 		Floors:      []floor{{"Sqrt/perfect-square", 3000}, {"Sqrt/root-is-tie", 3000}, {"Sqrt/root-just-above-tie", 2000}, {"Sqrt/root-just-below-tie", 2000}, {"Sqrt/root-just-above-representable", 2000}, {"Sqrt/root-just-below-representable", 2000}, {"Sqrt/special", 50}, {"Sqrt/just-below-power-of-ten", 3000}, {"mode/ToNegativeInf", 5000}, {"mode/AwayFromZero", 5000}},
 		LevelText:   "Runtime monitoring of Sqrt against the integer square root with cases constructed at the rounding boundaries (exact ties, perfect squares, neighbours one unit of a far lower place away), where an approximate Newton result is wrong.",
@@ -67,7 +67,7 @@ var props = map[string]*propCfg{
 		DesignRef:   "DESIGN.md §4 C04",
 	},
 	"C02": {
-		Rule:        "55% arithmetic cases (C01's generator for Add/Sub/Mul/Quo/Set/SetPrec plus C03's FMA generator, 35% of them re-targeted at a precision that makes the exact result representable so that Exact must be reported iff nothing was lost) and 45% setter cases: SetUint64/SetInt64 (edge values around 2^63, 2^64, 10^19, rounding-aimed digit strings), SetInt (1..6 000 digits, powers of 2 and 10, zero), SetRat (random, terminating and rounding-aimed exact quotients), NewDecimal (exponents over all of int incl. the int64 extremes), SetMantExp (results within +-3 of both range ends, int64-extreme offsets, zeros, infinities), base-10 literals via Parse(s,10), Parse(s,0) with '_' separators, SetString and UnmarshalText (leading/trailing zeros, point anywhere, exponents to both range ends); receiver precision 0 or 1..45 or digit count +-3, six modes. Oracle: only the line Acc == sign(stored - exact), evaluated by exact magnitude comparison against the stored value (infinities as +-oo, underflowed zeros against the tiny exact value); model #1 is used as a cross-check of that truth. Every case is non-trivial; distinct = hashes of the case description. Added in later rounds: setter precisions from the top of the uint32 range, operands whose accuracy is Below/Above (hx.MkR), SetMantExp of zeros/infinities with such an accuracy, decimal mantissas with a small binary exponent, FMA addends that cancel the tail of a sparse product.",
+		Rule:        "55% arithmetic cases (C01's generator for Add/Sub/Mul/Quo/Set/SetPrec plus C03's FMA generator, 35% of them re-targeted at a precision that makes the exact result representable so that Exact must be reported iff nothing was lost) and 45% setter cases: SetUint64/SetInt64 (edge values around 2^63, 2^64, 10^19, rounding-aimed digit strings), SetInt (1..6 000 digits, powers of 2 and 10, zero), SetRat (random, terminating and rounding-aimed exact quotients), NewDecimal (exponents over all of int incl. the int64 extremes), SetMantExp (results within +-3 of both range ends, int64-extreme offsets, zeros, infinities), base-10 literals via Parse(s,10), Parse(s,0) with '_' separators, SetString and UnmarshalText (leading/trailing zeros, point anywhere, exponents to both range ends); receiver precision 0 or 1..45 or digit count +-3, six modes. Oracle: only the line Acc == sign(stored - exact), evaluated by exact magnitude comparison against the stored value (infinities as +-oo, underflowed zeros against the tiny exact value); model #1 is used as a cross-check of that truth. Every case is non-trivial; distinct = hashes of the case description. Added in later rounds: setter precisions from the top of the uint32 range, operands whose accuracy is Below/Above (hx.MkR), SetMantExp of zeros/infinities with such an accuracy, decimal mantissas with a small binary exponent, FMA addends that cancel the tail of a sparse product. Round 8: one inexact quotient of small integers per run into a receiver whose precision lies within 18 of MaxPrec (3.5 GB, ten seconds: the division works by the precision): it must fill the precision, be Below or Above as the mode says and start with the right digits.",
 		Assumptions: []string{"Neg/Abs are not in the statement's list and are not judged", "for SetInt/SetRat with precision 0 the resulting precision is taken as found (C09 judges it)", "FMA cases whose exact product leaves the exponent range are known finding D15"},
 		Floors:      []floor{{"expected-acc/0", 100000}, {"expected-acc/1", 50000}, {"expected-acc/-1", 50000}, {"SetMantExp", 5000}, {"NewDecimal", 5000}, {"SetRat", 5000}, {"Parse10", 3000}, {"UnmarshalText", 3000}, {"FMA/", 10000}, {"Quo/", 10000}},
 		LevelText:   "Runtime monitoring of the accuracy flag against the exact value on every rounding operation of the statement; needs only the stored value and the exact value, not the rounding algorithm.",
@@ -114,7 +114,7 @@ var props = map[string]*propCfg{
 		DesignRef:   "DESIGN.md §4 C09",
 	},
 	"C20": {
-		Rule:        "SetBitsExp(mant, exp): slices of 0..40 words (edge words, high zero words, low zero words, top word of 1..18 digits, all zero, all nines), exponents over all of int64 (both extremes, random 64-bit values, within 25 of either range end), receiver precision 1..60, smaller than the slice, or 0; six modes; receivers that held another value; oracle = +sum(m[i] B^i) x 10^(exp - 19 len) evaluated with a big.Int exponent (cannot wrap), rounded once by both models; all-zero => +0. BitsExp: values built through three routes (parser, arithmetic, raw) must be denoted exactly by the returned pair and by the independent 'p'-format read-out, with the exponent equal to the leading digit's. MantExp: exponent = leading digit's, mant in [0.1,1) with x's precision and mode, nil / fresh / same-variable out-parameter, ±0 and ±Inf special cases, x unchanged, and the documented identity SetMantExp(mant, x.MantExp(mant)) == x. SetMantExp(mant, k): exact mant x 10^k with k small, landing within 4 of either range end, anywhere in int, at the int64 extremes; ±0/±Inf exactly when the exponent leaves the range; attributes copied from mant; mant unchanged. Non-trivial = finite, non-empty inputs. Added in later rounds: the BitsExp -> edit in place -> SetBitsExp idiom, leading zero words on precision-0 receivers, MantExp's destination probed for shared storage, one slice of more than 2^32 digits and one with more than 2^31 leading zero digits per run (1.8 GB and 0.9 GB of untouched zero pages). Round 6: the 2^32-digit slice is also handed to receivers of small explicit precision (10, 19, 25, 38, random; five hand-overs, to-nearest modes with a rounding digit of 5 or more every other time), judged against a surrogate with the same top three words.",
+		Rule:        "SetBitsExp(mant, exp): slices of 0..40 words (edge words, high zero words, low zero words, top word of 1..18 digits, all zero, all nines), exponents over all of int64 (both extremes, random 64-bit values, within 25 of either range end), receiver precision 1..60, smaller than the slice, or 0; six modes; receivers that held another value; oracle = +sum(m[i] B^i) x 10^(exp - 19 len) evaluated with a big.Int exponent (cannot wrap), rounded once by both models; all-zero => +0. BitsExp: values built through three routes (parser, arithmetic, raw) must be denoted exactly by the returned pair and by the independent 'p'-format read-out, with the exponent equal to the leading digit's. MantExp: exponent = leading digit's, mant in [0.1,1) with x's precision and mode, nil / fresh / same-variable out-parameter, ±0 and ±Inf special cases, x unchanged, and the documented identity SetMantExp(mant, x.MantExp(mant)) == x. SetMantExp(mant, k): exact mant x 10^k with k small, landing within 4 of either range end, anywhere in int, at the int64 extremes; ±0/±Inf exactly when the exponent leaves the range; attributes copied from mant; mant unchanged. Non-trivial = finite, non-empty inputs. Added in later rounds: the BitsExp -> edit in place -> SetBitsExp idiom, leading zero words on precision-0 receivers, MantExp's destination probed for shared storage, one slice of more than 2^32 digits and one with more than 2^31 leading zero digits per run (1.8 GB and 0.9 GB of untouched zero pages). Round 6: the 2^32-digit slice is also handed to receivers of small explicit precision (10, 19, 25, 38, random; five hand-overs, to-nearest modes with a rounding digit of 5 or more every other time), judged against a surrogate with the same top three words. Round 8: the receiver's own slice may be re-sliced from a higher word (the low words dropped) before it is edited and handed back.",
 		Assumptions: []string{"for a precision-0 receiver of SetBitsExp the chosen precision is undocumented: only 'stored exactly and MinPrec <= Prec' is demanded", "accuracy after SetBitsExp is not part of the statement"},
 		Floors:      []floor{{"SetBitsExp/", 40000}, {"SetBitsExp/prec0", 3000}, {"BitsExp/", 10000}, {"MantExp/", 10000}, {"SetMantExp/range-end", 5000}, {"SetMantExp/int64-extreme", 2000}},
 		LevelText:   "Runtime monitoring of the raw access and MantExp/SetMantExp pairs against exact values with exponents evaluated in big.Int, over the whole int64 exponent space.",
@@ -122,7 +122,7 @@ var props = map[string]*propCfg{
 		DesignRef:   "DESIGN.md §4 C20",
 	},
 	"C14": {
-		Rule:        "Getters (60%): values clustered at 2^63, 2^64, 10^18, 10^19, 10^20, 10^38 (+-3, with fractional parts of 1..30 digits incl. all-nines fractions, and integers written with positive exponents), exponents 0..25 (both sides of the x.exp <= 20 branch), moderate exponents to +-20 000, zeros and infinities; for each: Int (nil and provided destination), Int64, Uint64, Rat (nil and provided), IsInt, MinPrec compared with the exact rational (truncation toward zero, saturation values and accuracies as documented, Exact iff nothing discarded), x unchanged. Setters (40%): SetUint64/SetInt64 (edge values), SetInt (1..20 000 digits, powers of 2 and 10, all nines, rounding-aimed, zero), SetRat (random, terminating, exact quotients, integers), NewDecimal (exponents over all of int incl. both range ends and the int64 extremes) judged by both oracle models at the receiver's precision; with a precision-0 receiver an integer argument must be stored exactly; arguments unchanged; an exactly stored result must report Exact. Non-trivial = finite operands / every setter case. Added in later rounds: SetInt arguments to 160000 digits, precisions of 2^31 and above for IsInt/MinPrec, one SetInt of 430000..470000 digits and one Rat with a million-digit fraction per run.",
+		Rule:        "Getters (60%): values clustered at 2^63, 2^64, 10^18, 10^19, 10^20, 10^38 (+-3, with fractional parts of 1..30 digits incl. all-nines fractions, and integers written with positive exponents), exponents 0..25 (both sides of the x.exp <= 20 branch), moderate exponents to +-20 000, zeros and infinities; for each: Int (nil and provided destination), Int64, Uint64, Rat (nil and provided), IsInt, MinPrec compared with the exact rational (truncation toward zero, saturation values and accuracies as documented, Exact iff nothing discarded), x unchanged. Setters (40%): SetUint64/SetInt64 (edge values), SetInt (1..20 000 digits, powers of 2 and 10, all nines, rounding-aimed, zero), SetRat (random, terminating, exact quotients, integers), NewDecimal (exponents over all of int incl. both range ends and the int64 extremes) judged by both oracle models at the receiver's precision; with a precision-0 receiver an integer argument must be stored exactly; arguments unchanged; an exactly stored result must report Exact. Non-trivial = finite operands / every setter case. Added in later rounds: SetInt arguments to 160000 digits, precisions of 2^31 and above for IsInt/MinPrec, one SetInt of 430000..470000 digits and one Rat with a million-digit fraction per run. Round 8: Int64 and Uint64 of ddddd.000...07 held in a mantissa of a little more than 2^31 digits (one per run).",
 		Assumptions: []string{"Int and Rat are exercised at |exponent| <= 20 000 (they materialise 10^|exp|)", "the accuracy returned by Int/Rat for an infinity is not in the statement and is not judged"},
 		Floors:      []floor{{"getter/around-boundaries", 30000}, {"getter/exp-0-25", 20000}, {"getter/inf", 3000}, {"SetInt", 10000}, {"SetRat", 10000}, {"NewDecimal", 10000}, {"precision0_integer_exact", 3000}},
 		LevelText:   "Runtime monitoring of every conversion against exact big.Int/big.Rat values, aimed at the saturation bounds and word boundaries.",
@@ -130,7 +130,7 @@ var props = map[string]*propCfg{
 		DesignRef:   "DESIGN.md §4 C14",
 	},
 	"C15": {
-		Rule:        "SetFloat64 (30%): float64 bit patterns (uniform bits, subnormals, powers of two +-1 ulp, extremes, short binary fractions, decimal-looking values, +-0, +-Inf, NaN) at precision 0 (-> 17), 1..40 and 700..800 (holds every float64 expansion): sign kept, zeros/infinities mapped to themselves, NaN => ErrNaN, exact whenever MinPrec(expansion) <= precision, otherwise at most one unit in the last place from RoundOnce(exact). SetFloat (15%): big.Float of 1..2 000 bits, binary exponents to +-3 000 (thorough +-100 000), +-0 and +-Inf: same rules with a 64-unit bound; argument unchanged. Float64/Float32 (40%): Decimals on the float grid, at exact midpoints of adjacent floats, and those nudged by a relative 10^-3..10^-60; values around both ends of each format's range and at astronomically large exponents; zeros, infinities: the returned value must be the float nearest to x (big.Rat.Float64/Float32 on the exact rational, range alone beyond |exponent| 400) and the accuracy sign(returned - x). Float (15%): result precision as documented, within 64 binary units of x, special values. Non-trivial = finite inputs. Added in later rounds: receivers at MaxPrec, dirty Float destinations, Float beyond big.Float's exponent range, over-wide big.Floats, short decimal integers c x 10^n, float64 look-alikes at the ends of the double's range, thousands of digits into thousands of bits, precision-0 zeros; the accuracy of Float64/Float32 is judged against the returned value for every finite input. Round 7: big.Floats of 2 000 .. 140 000 bits (short mantissas) for SetFloat; the precision a precision-0 receiver is given is compared with the exact count of digits of 2^Prec(), not with a float64 formula.",
+		Rule:        "SetFloat64 (30%): float64 bit patterns (uniform bits, subnormals, powers of two +-1 ulp, extremes, short binary fractions, decimal-looking values, +-0, +-Inf, NaN) at precision 0 (-> 17), 1..40 and 700..800 (holds every float64 expansion): sign kept, zeros/infinities mapped to themselves, NaN => ErrNaN, exact whenever MinPrec(expansion) <= precision, otherwise at most one unit in the last place from RoundOnce(exact). SetFloat (15%): big.Float of 1..2 000 bits, binary exponents to +-3 000 (thorough +-100 000), +-0 and +-Inf: same rules with a 64-unit bound; argument unchanged. Float64/Float32 (40%): Decimals on the float grid, at exact midpoints of adjacent floats, and those nudged by a relative 10^-3..10^-60; values around both ends of each format's range and at astronomically large exponents; zeros, infinities: the returned value must be the float nearest to x (big.Rat.Float64/Float32 on the exact rational, range alone beyond |exponent| 400) and the accuracy sign(returned - x). Float (15%): result precision as documented, within 64 binary units of x, special values. Non-trivial = finite inputs. Added in later rounds: receivers at MaxPrec, dirty Float destinations, Float beyond big.Float's exponent range, over-wide big.Floats, short decimal integers c x 10^n, float64 look-alikes at the ends of the double's range, thousands of digits into thousands of bits, precision-0 zeros; the accuracy of Float64/Float32 is judged against the returned value for every finite input. Round 7: big.Floats of 2 000 .. 140 000 bits (short mantissas) for SetFloat; the precision a precision-0 receiver is given is compared with the exact count of digits of 2^Prec(), not with a float64 formula. Round 8: float look-alikes with a tail 60..6 000 digits down, in mantissas padded with up to 400 zero digits below it; zeros and infinities of any uint32 precision (and sums of small multiples of the continued-fraction denominators of log10 2) for SetFloat's precision-0 default, against an exact count (D42).",
 		Assumptions: []string{"'a few dozen units' (SetFloat, Float) is read as 64 units in the last place: a drift alarm, not a tight specification", "big.Float binary exponents are capped (oracle cost): +-3 000 quick, +-100 000 thorough", "Float64/Float32 results for x within 2^-8 ulp (float64) / 2^-5 ulp (float32) of a multiple of half the format's spacing are known finding D12 as far as the returned VALUE is concerned (double rounding through a 64/32-bit big.Float may return the second-nearest value at a midpoint); everything outside that band is a violation, and the accuracy is judged for every finite input against the value that was returned"},
 		Floors:      []floor{{"SetFloat64/", 30000}, {"setfloat64_exactly_representable", 3000}, {"SetFloat/finite", 10000}, {"Float64/midpoint", 5000}, {"Float32/midpoint", 2000}, {"tofloat_outside_double_rounding_band", 10000}, {"tofloat_accuracy_judged_against_returned_value", 50000}, {"Float/finite", 10000}, {"Float64/range-edge", 3000}},
 		LevelText:   "Runtime monitoring of the binary conversions against exact rationals (big.Rat) with inputs constructed on and beside the float grid.",
@@ -146,7 +146,7 @@ var props = map[string]*propCfg{
 		DesignRef:   "DESIGN.md §4 C16",
 	},
 	"C12": {
-		Rule:        "Decimal literals (35%): generated from a digit string (1..6 000 digits, rounding-aimed or patterned, leading/trailing zeros, all zeros), a radix point anywhere, an exponent to both ends of the int32 range, rendered plainly and with '_' separators, through Parse(s,10), Parse(s,0), SetString, ParseDecimal, UnmarshalText and fmt.Sscan; receiver precision 0 (-> 34), 1..45 or digit count +-3, six modes, dirty receivers: value and accuracy against the exact literal value by both oracle models, reported base, resulting precision and mode. Binary literals (20%): 0b/0o/0x mantissas with optional fraction and optional p exponent, decimal mantissas with a p exponent: exact value m x 2^k; stored exactly when its decimal expansion fits the precision, otherwise within one unit of the correctly rounded value; detected base. Exponent range (10%): non-zero and zero mantissas with exponents within 400 (sometimes 200 000) of +-2^31, 2^32, 2^63, 2^64, k*2^64, 2^65 and 11..30-digit exponents, with sign and leading-zero variants: accepted exactly when the exponent text fits an int64 and the leading digit's exponent (computed in big.Int) lies in [MinExp, MaxExp], then stored exactly-then-rounded; rejected with a nil result otherwise. Language (40%): token soup, mutated and truncated literals, literals with trailing garbage, x bases {0,2,8,10,16}: no entry point may panic; a failed call returns a nil *Decimal; an accepted one leaves a canonical value; acceptance and detected base must equal big.Float.Parse for literals whose exponent magnitude is <= 10^4 (beyond that math/big's binary exponent range differs). Every case is non-trivial. Added in later rounds: SetString/ParseDecimal/UnmarshalText must agree with Parse (acceptance and state), foreign spellings (null, <nil>, ...), Sscanf with every floating-point verb, binary exponents around and beyond +-2^31/2^32/2^63/2^64, mixed-base literals (0b/0o mantissa with a fraction and a decimal exponent) aimed at both ends of the range and at rounding carries, ParseDecimal precisions beyond 2^32, binary literals into receivers at the top of the precision range. Round 7: mixed-base literals also with sparse mantissas 1.000...0001 (20..110 digits) at the ends of the range; a mixed-base literal whose exact value lies above the exponent range must be rejected like its decimal spelling (only a value inside the range whose rounding carries out becomes an infinity).",
+		Rule:        "Decimal literals (35%): generated from a digit string (1..6 000 digits, rounding-aimed or patterned, leading/trailing zeros, all zeros), a radix point anywhere, an exponent to both ends of the int32 range, rendered plainly and with '_' separators, through Parse(s,10), Parse(s,0), SetString, ParseDecimal, UnmarshalText and fmt.Sscan; receiver precision 0 (-> 34), 1..45 or digit count +-3, six modes, dirty receivers: value and accuracy against the exact literal value by both oracle models, reported base, resulting precision and mode. Binary literals (20%): 0b/0o/0x mantissas with optional fraction and optional p exponent, decimal mantissas with a p exponent: exact value m x 2^k; stored exactly when its decimal expansion fits the precision, otherwise within one unit of the correctly rounded value; detected base. Exponent range (10%): non-zero and zero mantissas with exponents within 400 (sometimes 200 000) of +-2^31, 2^32, 2^63, 2^64, k*2^64, 2^65 and 11..30-digit exponents, with sign and leading-zero variants: accepted exactly when the exponent text fits an int64 and the leading digit's exponent (computed in big.Int) lies in [MinExp, MaxExp], then stored exactly-then-rounded; rejected with a nil result otherwise. Language (40%): token soup, mutated and truncated literals, literals with trailing garbage, x bases {0,2,8,10,16}: no entry point may panic; a failed call returns a nil *Decimal; an accepted one leaves a canonical value; acceptance and detected base must equal big.Float.Parse for literals whose exponent magnitude is <= 10^4 (beyond that math/big's binary exponent range differs). Every case is non-trivial. Added in later rounds: SetString/ParseDecimal/UnmarshalText must agree with Parse (acceptance and state), foreign spellings (null, <nil>, ...), Sscanf with every floating-point verb, binary exponents around and beyond +-2^31/2^32/2^63/2^64, mixed-base literals (0b/0o mantissa with a fraction and a decimal exponent) aimed at both ends of the range and at rounding carries, ParseDecimal precisions beyond 2^32, binary literals into receivers at the top of the precision range. Round 7: mixed-base literals also with sparse mantissas 1.000...0001 (20..110 digits) at the ends of the range; a mixed-base literal whose exact value lies above the exponent range must be rejected like its decimal spelling (only a value inside the range whose rounding carries out becomes an infinity). Round 8: a second sign in front of literals and infinity spellings (-+Inf, +-1, --0x1p3 ...).",
 		Assumptions: []string{"Scan (fmt) accepts a valid prefix by design: its acceptance is not compared with Parse's", "language comparison is limited to exponent magnitudes <= 10^4; range rejections beyond that are covered by the decimal-literal cases at both range ends"},
 		Floors:      []floor{{"decimal/", 60000}, {"binary/", 30000}, {"binary_exactly_representable", 5000}, {"range/accepted", 1500}, {"range/rejected", 15000}, {"language/accepted", 10000}, {"language/rejected", 20000}, {"language_compared_with_math_big", 40000}, {"entry_point_calls", 150000}},
 		LevelText:   "Runtime monitoring of the parser against exact literal values and against math/big's parser as a reference for the accepted language; grammar-aware fuzzing for totality.",
@@ -154,7 +154,7 @@ var props = map[string]*propCfg{
 		DesignRef:   "DESIGN.md §4 C12",
 	},
 	"C13": {
-		Rule:        "Differential (55%, no model): every finite float64 has a finite exact decimal expansion; x = that expansion as a Decimal in ToNearestEven. Text/Append(x, f, prec) must equal strconv.FormatFloat(v, f, prec, 64) for f in e E f g G and prec 0..45 (prec -1 only when strconv's shortest form is the exact expansion), and fmt.Sprintf(verb, x) must equal fmt.Sprintf(verb, v) for verbs e E f F g G v x every subset of the flags '+', ' ', '-', '0' x width 0..30 x precision 0..20 or absent, incl. +-0, +-Inf, values at the %g thresholds and 9.99->10.0 carries. Model (45%): arbitrary Decimals (1..200 digits, digit strings aimed at the requested rounding position incl. positions at or above the leading digit, six modes, zeros, infinities): Text(f, prec) for f in e E f g G and prec -1..40 must equal RoundToPlace(x, position, x.Mode()) laid out by a port of strconv's %e/%f/%g rules, itself cross-checked against strconv on every differential case; 'p' and 'b' layouts directly; String() = Text('g', 10). x unchanged. Non-trivial = finite values. Added in later rounds: a top-decade rounding class, %s / precision-less %v / %b / unknown verbs through Format, field widths to 900, runs of more than a million zeros.",
+		Rule:        "Differential (55%, no model): every finite float64 has a finite exact decimal expansion; x = that expansion as a Decimal in ToNearestEven. Text/Append(x, f, prec) must equal strconv.FormatFloat(v, f, prec, 64) for f in e E f g G and prec 0..45 (prec -1 only when strconv's shortest form is the exact expansion), and fmt.Sprintf(verb, x) must equal fmt.Sprintf(verb, v) for verbs e E f F g G v x every subset of the flags '+', ' ', '-', '0' x width 0..30 x precision 0..20 or absent, incl. +-0, +-Inf, values at the %g thresholds and 9.99->10.0 carries. Model (45%): arbitrary Decimals (1..200 digits, digit strings aimed at the requested rounding position incl. positions at or above the leading digit, six modes, zeros, infinities): Text(f, prec) for f in e E f g G and prec -1..40 must equal RoundToPlace(x, position, x.Mode()) laid out by a port of strconv's %e/%f/%g rules, itself cross-checked against strconv on every differential case; 'p' and 'b' layouts directly; String() = Text('g', 10). x unchanged. Non-trivial = finite values. Added in later rounds: a top-decade rounding class, %s / precision-less %v / %b / unknown verbs through Format, field widths to 900, runs of more than a million zeros. Round 8: one f layout of a value in the top decade of the exponent range per run (2 GiB of output): length and leading digits.",
 		Assumptions: []string{"excluded because they are not what the statement names: the '#' flag; '+'/' ' combined with %v (fmt turns them into plusV/spaceV for built-in floats, which a Formatter cannot observe); precision-less %g/%G/%v unless the float's shortest form is its exact expansion", "'f' is exercised at |exponent| <= 3 000"},
 		Floors:      []floor{{"strconv/", 50000}, {"fmt/", 50000}, {"model/f/position-at-or-above-leading-digit", 1500}, {"model/e/aimed-at-position", 3000}, {"model/g/aimed-at-position", 3000}, {"model/p/", 8000}, {"model/b/", 8000}, {"fmt_model_cases", 10000}, {"mode/ToNegativeInf", 10000}},
 		LevelText:   "Runtime differential monitoring of formatting against strconv and fmt themselves on float64-representable values, plus a strconv-validated layout model for arbitrary Decimals in all six modes.",
@@ -162,7 +162,7 @@ var props = map[string]*propCfg{
 		DesignRef:   "DESIGN.md §4 C13",
 	},
 	"C11": {
-		Rule:        "Values (1..3 000 digits incl. interior and trailing zero words, exponents from MinExp to MaxExp, both signs, zeros, infinities) built through five routes (raw words with extra low zero words, parser, arithmetic, reused longer buffer, plain) are printed with Text/Append in e, E, f (|exponent| < 5 000), g, G, p at precision -1, with b, MarshalText and json.Marshal; the text must (1) carry exactly the oracle's significant digits, MinPrec of them (first through last non-zero digit of the mantissa part; not for b/JSON), (2) parse back (Parse base 10 / SetString / UnmarshalText / json.Unmarshal) into receivers of precision max(1,MinPrec), +1 and +40, any mode, dirty or fresh, to exactly x's value and sign incl. -0 and +-Inf, comparing equal to x. x unchanged. Non-trivial = finite values. Added in later rounds: Append into buffers with spare capacity, the MarshalText result overwritten by its owner before the next call, a second formatting after an in-place update of interior mantissa words. Round 6: the shared exponent generator also draws +-10^j and its neighbours (where the printed exponent gains or loses a digit). Round 7: one mantissa of 66 000 .. 72 000 words (1.3 million digits) per run, printed (e, g or MarshalText), compared digit for digit and read back.",
+		Rule:        "Values (1..3 000 digits incl. interior and trailing zero words, exponents from MinExp to MaxExp, both signs, zeros, infinities) built through five routes (raw words with extra low zero words, parser, arithmetic, reused longer buffer, plain) are printed with Text/Append in e, E, f (|exponent| < 5 000), g, G, p at precision -1, with b, MarshalText and json.Marshal; the text must (1) carry exactly the oracle's significant digits, MinPrec of them (first through last non-zero digit of the mantissa part; not for b/JSON), (2) parse back (Parse base 10 / SetString / UnmarshalText / json.Unmarshal) into receivers of precision max(1,MinPrec), +1 and +40, any mode, dirty or fresh, to exactly x's value and sign incl. -0 and +-Inf, comparing equal to x. x unchanged. Non-trivial = finite values. Added in later rounds: Append into buffers with spare capacity, the MarshalText result overwritten by its owner before the next call, a second formatting after an in-place update of interior mantissa words. Round 6: the shared exponent generator also draws +-10^j and its neighbours (where the printed exponent gains or loses a digit). Round 7: one mantissa of 66 000 .. 72 000 words (1.3 million digits) per run, printed (e, g or MarshalText), compared digit for digit and read back. Round 8: f (also e, g) of values whose integer part has every length in 65 466..65 605 and 130 972..131 111 digits once per run, with a short fraction (seams of block-wise conversions).",
 		Assumptions: []string{"'f' output is generated only for |exponent| < 5 000 (it materialises the exponent)"},
 		Floors:      []floor{{"format/e/finite", 8000}, {"format/f/finite", 5000}, {"format/g/finite", 8000}, {"format/p/finite", 8000}, {"format/b/finite", 8000}, {"format/JSON/finite", 8000}, {"format/MarshalText/finite", 8000}, {"round_trips", 250000}, {"route/low-zero-words", 10000}},
 		LevelText:   "Runtime round-trip monitoring (metamorphic): print, check the digits against the exact value, parse back at three precisions.",
@@ -170,7 +170,7 @@ var props = map[string]*propCfg{
 		DesignRef:   "DESIGN.md §4 C11",
 	},
 	"C17": {
-		Rule:        "Round trips (25%): values of every form x mode x accuracy (Below/Above produced by real roundings) x precisions incl. mantissas much shorter than the precision, through GobEncode/GobDecode and through encoding/gob streams into a zero value: value, sign, precision, mode and accuracy must come back; x unchanged. Into a receiver with precision q != 0 (15%): q and the receiver's mode kept, value = the transmitted value rounded once to (q, mode) by both oracle models. Hostile bytes (60%): valid encodings truncated at every length, with one bit flipped (header and body), with random byte edits, extended with trailing bytes; hand-built payloads with form 3, mode 6/7, accuracy 3, precision 0 / 2^32-1 / random, exponent anywhere, mantissa words >= 10^19, 2^64-1, zero or short leading word, partial last word; random bytes. GobDecode must never panic; whatever it returns, the receiver must pass the C08 walker; an accepted payload must survive a battery of follow-up calls (Text, Cmp, Add, Mul, Sub, Set, Neg, Int64, re-encoding and decoding to an equal value). Every case is non-trivial. Added in later rounds: both buffers (GobEncode's result, GobDecode's input) are overwritten by their owner afterwards, a mantissa word exactly equal to the base. Round 6: one well-formed payload of a little more than 2^32 digits (1.8 GB, precision field = digit count mod 2^32 plus 0..300) decoded into a zero value: whatever GobDecode answers, the receiver must not hold more digits than its precision.",
+		Rule:        "Round trips (25%): values of every form x mode x accuracy (Below/Above produced by real roundings) x precisions incl. mantissas much shorter than the precision, through GobEncode/GobDecode and through encoding/gob streams into a zero value: value, sign, precision, mode and accuracy must come back; x unchanged. Into a receiver with precision q != 0 (15%): q and the receiver's mode kept, value = the transmitted value rounded once to (q, mode) by both oracle models. Hostile bytes (60%): valid encodings truncated at every length, with one bit flipped (header and body), with random byte edits, extended with trailing bytes; hand-built payloads with form 3, mode 6/7, accuracy 3, precision 0 / 2^32-1 / random, exponent anywhere, mantissa words >= 10^19, 2^64-1, zero or short leading word, partial last word; random bytes. GobDecode must never panic; whatever it returns, the receiver must pass the C08 walker; an accepted payload must survive a battery of follow-up calls (Text, Cmp, Add, Mul, Sub, Set, Neg, Int64, re-encoding and decoding to an equal value). Every case is non-trivial. Added in later rounds: both buffers (GobEncode's result, GobDecode's input) are overwritten by their owner afterwards, a mantissa word exactly equal to the base. Round 6: one well-formed payload of a little more than 2^32 digits (1.8 GB, precision field = digit count mod 2^32 plus 0..300) decoded into a zero value: whatever GobDecode answers, the receiver must not hold more digits than its precision. Round 8: the receiver of a decode may hold a relative of what arrives (the same words followed by more, a few digits more, the leading digits only, the same value, the opposite sign).",
 		Assumptions: []string{"the follow-up battery is skipped (and counted) when an accepted payload carries a precision above 100 000: a legitimate attribute, but Set/Mul at that size only test the allocator"},
 		Floors:      []floor{{"roundtrip/direct", 20000}, {"roundtrip/encoding-gob", 20000}, {"roundtrip-acc/-1", 5000}, {"roundtrip-acc/1", 5000}, {"into-receiver", 25000}, {"hostile/truncated", 20000}, {"hostile/bit-flip", 20000}, {"hostile/hand-built", 30000}, {"hostile_accepted", 20000}, {"hostile_rejected", 50000}},
 		LevelText:   "Runtime monitoring of the Gob codec: attribute-exact round trips, oracle-checked rounding into receivers, and field-aware fuzzing of the decoder with the invariant walker and a follow-up battery as oracles.",
@@ -178,7 +178,7 @@ var props = map[string]*propCfg{
 		DesignRef:   "DESIGN.md §4 C17",
 	},
 	"C19": {
-		Rule:        "Sequences of 30 context operations run in lock-step with a sequential model {prec, mode, latched}: Add/Sub/Mul/Quo/FMA/Sqrt/Neg/Abs/Set on operands of every class (finite to 60 digits, +-0, +-Inf: valid and NaN-producing combinations), receivers with their own precision/mode/old contents (12% also an operand), Err, SetPrec (incl. 0), SetMode, and the factories New/NewInt/NewInt64/NewUint64/NewRat/NewFloat64 (25% NaN)/NewFloat/NewString/ParseDecimal. Per step: while the model is latched, an operation must return the same pointer and leave the receiver's entire raw state unchanged; otherwise a receiver distinct from the operands must hold the exact result rounded once to the CONTEXT's precision and mode (both oracle models) and carry those attributes; a NaN-producing call must not panic and latches the model (first error wins); Err() returns an ErrNaN exactly once, then nil, and re-arms. Panics that are not ErrNaN are injected three ways - a nil operand (runtime error), an error value and a string raised from inside the library's rounding step through the verif hook - and must escape without latching the context. Factories: attributes = context's, exact ones judged for value. Every step is non-trivial. Added in later rounds: precisions beyond 2^32 through New and SetPrec, binary factories judged (sign, class, distance), FMA products beyond the range with infinite addends (D15 matched by outcome: the recorded ErrNaN), copies of the context.",
+		Rule:        "Sequences of 30 context operations run in lock-step with a sequential model {prec, mode, latched}: Add/Sub/Mul/Quo/FMA/Sqrt/Neg/Abs/Set on operands of every class (finite to 60 digits, +-0, +-Inf: valid and NaN-producing combinations), receivers with their own precision/mode/old contents (12% also an operand), Err, SetPrec (incl. 0), SetMode, and the factories New/NewInt/NewInt64/NewUint64/NewRat/NewFloat64 (25% NaN)/NewFloat/NewString/ParseDecimal. Per step: while the model is latched, an operation must return the same pointer and leave the receiver's entire raw state unchanged; otherwise a receiver distinct from the operands must hold the exact result rounded once to the CONTEXT's precision and mode (both oracle models) and carry those attributes; a NaN-producing call must not panic and latches the model (first error wins); Err() returns an ErrNaN exactly once, then nil, and re-arms. Panics that are not ErrNaN are injected three ways - a nil operand (runtime error), an error value and a string raised from inside the library's rounding step through the verif hook - and must escape without latching the context. Factories: attributes = context's, exact ones judged for value. Every step is non-trivial. Added in later rounds: precisions beyond 2^32 through New and SetPrec, binary factories judged (sign, class, distance), FMA products beyond the range with infinite addends (D15 matched by outcome: the recorded ErrNaN), copies of the context. Round 8: an aliased receiver may be all nines in the top decade beyond the context's precision, with the other operand chosen so that the rounded receiver's class makes the operation a NaN; the model rounds an aliased operand to the context before it decides whether a NaN is due.",
 		Assumptions: []string{"when the receiver is also an operand the context rounds it before operating (documented caveat): only the latch behaviour is judged then", "nothing is promised about factories while the context is latched (they have no receiver): only 'no panic' is demanded", "NewFloat/NewFloat64 values are C15's (faithful, not exact)"},
 		Floors:      []floor{{"ops_while_latched", 10000}, {"nan_latched", 3000}, {"err_returned_ErrNaN", 2000}, {"injected_panics", 5000}, {"op/FMA", 20000}, {"op/Sqrt", 20000}, {"factory/NewFloat64", 8000}, {"op/Err", 25000}},
 		LevelText:   "Model-based runtime monitoring: a sequential reference model of the context's latch runs in lock-step with the real Context over generated operation sequences, with injected foreign panics.",
@@ -194,7 +194,7 @@ var props = map[string]*propCfg{
 		DesignRef:   "DESIGN.md §4 C10",
 	},
 	"C18": {
-		Rule:        "Workers built with -race and -tags verif, once with the assembly kernels and once with the portable ones (decimal_pure_go: the race detector sees into them). Per shard (4 shards = 4 different operand/job tables): 35 shared operands (5..6 000 digits, +-0, +-Inf, 1, integers filling their mantissa, values in the top and bottom decade of the exponent range, zeros and an infinity in variables that held finite values) and a table of 520 jobs of 27 kinds: readers of shared operands (Add, Sub, Mul, squaring, Quo incl. 100..200-word divisors, FMA, Sqrt, Cmp, Text, Format, Float64/32, Float, Int, Rat, GobEncode, MarshalText, Set; precisions to 4 000) and writers into the goroutine's own receiver from shared or constant arguments (Parse of decimal and binary literals, gob round trip, SetRat, SetInt, SetFloat64, SetFloat, fmt with zero- and space-padded wide fields, Int of values far longer than their mantissa, the accumulation a.FMA(x, y, a)). Before anything else runs in the process, the first job of every kind is executed by 8 goroutines released together (cold start). Then the table is computed sequentially twice (determinism, getters do not write; operands compared bit for bit incl. the leftover exponent of zeros and infinities). Then, per repetition (3 quick / 60 thorough), four configurations (GOMAXPROCS, goroutines) = (2,4), (4,16), (16,16), (16,64) run the jobs in per-goroutine random order, each goroutine writing only to its own receivers; in every other configuration the verif hooks poison the scratch pool and inject Gosched / 0..50 us sleeps / runtime.GC() (empties the pool) at the pool get/put sites. Oracles: (1) the race detector: any report block is a violation (deduplicated by the outermost frames of the two accesses); (2) every concurrent result must equal the sequential one; (3) operand snapshots before/after. Evidence counts operation intervals from different goroutines that overlapped on a common operand (atomic busy masks recorded at the client boundary), distinct overlapping (kind, kind) pairs, hook calls, injected yields and GC cycles, pool gets, Karatsuba and recursive-division entries. A case = one configuration run; all are non-trivial. Round 6: a large-buffer phase (shared operands of 70 000 .. 1 000 000 digits built from words; Mul, Sqr, Quo, Text, MarshalText, Format, Gob, Cmp, Int run by 4 goroutines, pairs on the same job at the same time: scratch of a megabyte and more, digit buffers beyond 64 KiB); the library's hit counters are plain increments in race builds, so that they are not a synchronisation point at every hook site (an atomic counter hid a race next to the pool sites in two runs out of three). Round 7: a pool-churn phase (16 goroutines, quotients of short values by shared divisors of 8 192 .. 9 000 words: three large scratch buffers per quotient at a high rate) with an ownership table kept by the pool hook - a buffer handed out while it is still out is a violation whether or not a result shows it; the overlap statistics are atomics and are kept only in the delay-injecting configurations.",
+		Rule:        "Workers built with -race and -tags verif, once with the assembly kernels and once with the portable ones (decimal_pure_go: the race detector sees into them). Per shard (4 shards = 4 different operand/job tables): 35 shared operands (5..6 000 digits, +-0, +-Inf, 1, integers filling their mantissa, values in the top and bottom decade of the exponent range, zeros and an infinity in variables that held finite values) and a table of 520 jobs of 27 kinds: readers of shared operands (Add, Sub, Mul, squaring, Quo incl. 100..200-word divisors, FMA, Sqrt, Cmp, Text, Format, Float64/32, Float, Int, Rat, GobEncode, MarshalText, Set; precisions to 4 000) and writers into the goroutine's own receiver from shared or constant arguments (Parse of decimal and binary literals, gob round trip, SetRat, SetInt, SetFloat64, SetFloat, fmt with zero- and space-padded wide fields, Int of values far longer than their mantissa, the accumulation a.FMA(x, y, a)). Before anything else runs in the process, the first job of every kind is executed by 8 goroutines released together (cold start). Then the table is computed sequentially twice (determinism, getters do not write; operands compared bit for bit incl. the leftover exponent of zeros and infinities). Then, per repetition (3 quick / 60 thorough), four configurations (GOMAXPROCS, goroutines) = (2,4), (4,16), (16,16), (16,64) run the jobs in per-goroutine random order, each goroutine writing only to its own receivers; in every other configuration the verif hooks poison the scratch pool and inject Gosched / 0..50 us sleeps / runtime.GC() (empties the pool) at the pool get/put sites. Oracles: (1) the race detector: any report block is a violation (deduplicated by the outermost frames of the two accesses); (2) every concurrent result must equal the sequential one; (3) operand snapshots before/after. Evidence counts operation intervals from different goroutines that overlapped on a common operand (atomic busy masks recorded at the client boundary), distinct overlapping (kind, kind) pairs, hook calls, injected yields and GC cycles, pool gets, Karatsuba and recursive-division entries. A case = one configuration run; all are non-trivial. Round 6: a large-buffer phase (shared operands of 70 000 .. 1 000 000 digits built from words; Mul, Sqr, Quo, Text, MarshalText, Format, Gob, Cmp, Int run by 4 goroutines, pairs on the same job at the same time: scratch of a megabyte and more, digit buffers beyond 64 KiB); the library's hit counters are plain increments in race builds, so that they are not a synchronisation point at every hook site (an atomic counter hid a race next to the pool sites in two runs out of three). Round 7: a pool-churn phase (16 goroutines, quotients of short values by shared divisors of 8 192 .. 9 000 words: three large scratch buffers per quotient at a high rate) with an ownership table kept by the pool hook - a buffer handed out while it is still out is a violation whether or not a result shows it; the overlap statistics are atomics and are kept only in the delay-injecting configurations. Round 8: a quarter of the Sqrt jobs keep a negative operand (the call panics with ErrNaN, recovered by the job, while other goroutines are inside Sqrt); quick runs 3 repetitions.",
 		Assumptions: []string{"the race detector only sees the interleavings that occurred: the claim is 'no race on the K overlapping operations observed', not schedule coverage", "the monitor's own state is atomics only; hooks are installed while no goroutine runs"},
 		Floors:      []floor{{"overlapping_operations_on_a_shared_operand", 5000}, {"distinct_overlapping_operation_pairs", 100}, {"concurrent_operations", 100000}, {"hook_calls_at_pool_sites", 10000}, {"injected_gc_cycles", 50}, {"hit_karatsuba", 1000}, {"hit_div_recursive", 100}, {"config/", 64}},
 		Variants: []variant{
